@@ -28,7 +28,9 @@ class Random:
         right_number = int(end * scale_factor)
 
         result = cast(float, self.random_int(left_number, right_number) / scale_factor)
-        return round(result, precision)
+        # int() truncates toward zero and the scaling is inexact, so a point of the grid just
+        # outside [start, end] can be drawn: stay within the requested range
+        return min(max(round(result, precision), start), end)
 
     def random_str(self, length: int, alphabet: str) -> str:
         return "".join(random.choice(alphabet) for _ in range(length))
